@@ -227,8 +227,11 @@ package hclsyntax
 
 // Every parser method leaves the newline stack as deep as it found it (and never
 // replaces the peeker), on every path including all error-recovery paths.
+// (index and slice expressions inside the parser methods ARE obligations: "nosafety nil panic assert"
+// leaves out only nil dereferences, the "called with the peeker at the wrong token" panics and
+// checked type assertions, which are protocol facts between the parser's methods)
 // verif:methods (*parser).*
-//@ nosafety
+//@ nosafety nil panic assert
 //@ requires p.peeker != nil && len(p.peeker.IncludeNewlinesStack) >= 1
 //@ ensures depth: len(p.peeker.IncludeNewlinesStack) == old(len(p.peeker.IncludeNewlinesStack))
 //@ ensures samePeeker: p.peeker == old(p.peeker)
@@ -483,7 +486,7 @@ package hclsyntax
 // piece between the quotes is decoded by the escape decoder exactly once - no piece is taken
 // verbatim, none is decoded twice.
 // verif:func (*parser).parseQuotedStringLiteral
-//@ nosafety
+//@ nosafety nil panic assert
 //@ requires p.peeker != nil && len(p.peeker.IncludeNewlinesStack) >= 1
 //@ ensures depth: len(p.peeker.IncludeNewlinesStack) == old(len(p.peeker.IncludeNewlinesStack))
 //@ ensures samePeeker: p.peeker == old(p.peeker)
@@ -568,7 +571,7 @@ package hclsyntax
 // representation invariant holds where it is constructed. (parseTemplateParts repeats the clauses of
 // the (*parser) template, which a function with its own contract does not inherit.)
 // verif:func (*parser).parseTemplateParts
-//@ nosafety
+//@ nosafety nil panic assert
 //@ requires p.peeker != nil && len(p.peeker.IncludeNewlinesStack) >= 1
 //@ ensures depth: len(p.peeker.IncludeNewlinesStack) == old(len(p.peeker.IncludeNewlinesStack))
 //@ ensures samePeeker: p.peeker == old(p.peeker)
